@@ -111,7 +111,7 @@ def main():
                         wb.apply(o)
                 except Exception:     # noqa
                     break
-                if G.declared_cycle(wa.m):
+                if wa.k1_seen or G.declared_cycle(wa.m):
                     break          # known finding K1 (C01): the order inside a declared cycle is arbitrary in both executions
                 vals = [vals_pool[i % 3] for i in range(len(sub))]
                 hist = "; ".join(G.opstr(o) for o in ops)
